@@ -37,6 +37,8 @@
 #include "store/SwapMeta.h"
 #include "event.h"
 #include "SquidConfig.h"
+#include "fde.h"
+#include "comm.h"
 
 #include <cstdio>
 #include <cstring>
@@ -312,7 +314,6 @@ std::string runCase(const Case &c)
     opt_store_doublecheck = c.doubleCheck ? 1 : 0;
 
     Rock::SwapDir *sd = new Rock::SwapDir();
-    sd->lock(); // SwapDirs are RefCountable; we delete ours explicitly below
     sd->index = 0;
     sd->path = xstrdup(Dir.c_str());
     sd->filePath = xstrdup(DbPath.c_str());
@@ -441,7 +442,20 @@ std::string runCase(const Case &c)
 
 int main(int argc, char **argv)
 {
+    if (argc > 1 && !strcmp(argv[1], "--dump-consts")) {
+        printf("cellHeaderSize %zu\n", sizeof(Rock::DbCellHeader));
+        printf("entryLimitAbsolute %lld\n", static_cast<long long>(SwapFilenMax) + 1);
+        printf("keyPrivateBit %d\n", static_cast<int>(KEY_PRIVATE));
+        printf("pageSize %d\n", static_cast<int>(SM_PAGE_SIZE));
+        printf("dbHeaderSize %lld\n", static_cast<long long>(Rock::SwapDir::HeaderSize));
+        printf("metaBaseKeyed %zu\n", PrefixSz + KeyFieldSz + StdFieldSz);
+        printf("metaBaseKeyless %zu\n", PrefixSz + StdFieldSz);
+        printf("metaFieldHeader %zu\n", FieldHdrSz);
+        return 0;
+    }
     Mem::Init();
+    fde::Init();
+    comm_init();
     Config.memShared.defaultTo(false);
     Config.shmLocking.defaultTo(false);
     const char *base = getenv("C57_TMP");
